@@ -37,10 +37,10 @@ Print Assumptions C02_fastpath_unlock_refuses_partial.
 
 (* a serial queue never admits "readers": with width 1 the idle word already has the full bit's neighbour set so
    that one reservation reaches the in-barrier threshold; the reader fast path refuses any non-sync-runnable word *)
-Theorem C02_reader_fastpath_guards_partial : forall s tail,
+Theorem C02_reader_fastpath_guards_partial : forall s tail w,
   (nz (f_dq_state_is_dirty s) = true \/ nz (f_dq_state_has_pending_barrier s) = true \/
    nz (f_dq_state_is_sync_runnable s) = false \/ nz tail = true) ->
-  exists r, f_dispatch_queue_try_reserve_sync_width 0 tail s = NoCommit r [].
+  exists r, f_dispatch_queue_try_reserve_sync_width 0 tail s w = NoCommit r [].
 Proof. exact reader_fastpath_guards. Qed.
 Print Assumptions C02_reader_fastpath_guards_partial.
 
